@@ -911,6 +911,17 @@ def _valid_square_expr(p, g, e, depth):
     if re.match(r'^\(sq\+\(8\*up\)\)$', s0.replace(' ', '')):
         return True, 'square in front of a pawn on ranks 2..7 (A-PAWN)'
     r = e.get('ref', {})
+    if e['k'] == 'UnaryOperator' and e.get('op') == '*' and ((strip_casts(kids(e)[0]).get('ref') or {}).get('n') or '').startswith('__begin'):
+        # the variable of `for (Square s : {a, b, c})`: every listed element
+        loop = next((a for a in g.ancestors(e) if a['k'] == 'CXXForRangeStmt'), None)
+        rv = [x for x in walk(loop) if x['k'] == 'VarDecl' and (x.get('name') or '').startswith('__range') and kids(x)] if loop else []
+        lists = [x for x in walk(kids(rv[0])[0]) if x['k'] == 'InitListExpr'] if rv else []
+        if len(lists) == 1 and kids(lists[0]):
+            for el in kids(lists[0]):
+                ok, why = _valid_square_expr(p, g, el, depth + 1)
+                if not ok:
+                    return False, why
+            return True, 'every element of the braced list is a valid square'
     if r.get('k') == 'Local':
         d = single_def(g, r['id'])
         if d is not None:
@@ -936,26 +947,52 @@ def _valid_square_expr(p, g, e, depth):
                 if not ok:
                     return False, why
             return True, 'every definition of the local is a valid square'
+        enc = getattr(g, 'enclosing', None)
+        if enc is not None:
+            # a variable of the enclosing function captured by this lambda
+            outer = [x for x in enc.all_nodes() if x['k'] == 'DeclRefExpr' and (x.get('ref') or {}).get('k') in ('Local', 'Parm') and
+                     x['ref'].get('n') == r.get('n')]
+            if outer:
+                return _valid_square_expr(p, enc, outer[0], depth + 1)
     if r.get('k') == 'Parm':
         pi = [q['id'] for q in g.params].index(r['id'])
         bad = []
         n_c = 0
-        for h, call in p.callers_of(g.name):
-            args = kids(call)[1:]
-            if pi >= len(args) or call['k'] == 'CXXOperatorCallExpr':
-                continue
-            n_c += 1
-            ok, why = _valid_square_expr(p, h, args[pi], depth + 1)
-            if not ok:
-                bad.append('%s:%d' % (short(h.name), call['l']))
-        if n_c and not bad:
-            return True, 'parameter: all %d callers pass valid squares' % n_c
-        return False, 'parameter with invalid/unknown callers %s' % bad[:3]
+        lam = getattr(g, 'enclosing', None) is not None
+        key_ = (g.name, pi)
+        if key_ in _PARM_STACK:
+            return True, 'parameter passed on by the function to itself / its other instantiations'       # decided by the outer callers
+        _PARM_STACK.append(key_)
+        try:
+            res_ = _parm_callers(p, g, pi, lam, depth)
+        finally:
+            _PARM_STACK.pop()
+        return res_
     if e['k'] == 'ConditionalOperator':
         a = _valid_square_expr(p, g, kids(e)[1], depth + 1)
         b = _valid_square_expr(p, g, kids(e)[2], depth + 1)
         return a[0] and b[0], 'both arms'
     return False, 'unrecognised square expression %s' % s0[:40]
+
+
+_PARM_STACK = []
+
+
+def _parm_callers(p, g, pi, lam, depth):
+    if True:
+        bad = []
+        n_c = 0
+        for h, call in p.callers_of(g.name):
+            args = kids(call)[2:] if (lam and call['k'] == 'CXXOperatorCallExpr') else kids(call)[1:]
+            if pi >= len(args) or (call['k'] == 'CXXOperatorCallExpr' and not lam):
+                continue
+            n_c += 1
+            ok, why = _valid_square_expr(p, h, args[pi], max(0, depth - 1))
+            if not ok:
+                bad.append('%s:%d' % (short(h.name), call['l']))
+        if n_c and not bad:
+            return True, 'parameter: all %d callers pass valid squares' % n_c
+        return False, 'parameter with invalid/unknown callers %s' % bad[:3]
 
 
 def _buffer_capacity(p, f, arg, site=None):
